@@ -104,7 +104,9 @@ class ListGen(lg.Gen):
         for _ in range(40):
             want = rng.choice(types)
             r = self.gen_iexpr(lambda x: x == want, True, 0)
-            if r:
+            # the case format records the queries of ONE list comparison: a left-hand side that itself contains
+            # one (inside a Bool argument of a call) belongs to the general `exec` cases
+            if r and "'inlist'" not in repr(r[0]):
                 ie, t, n_each = r
                 return ("cmp", ie, ("inlist", self.sch.list_index(t), rng.choice(self.names))), n_each
         return None
